@@ -116,7 +116,7 @@ func c04(args []string) {
 			lens = []int{130}
 		}
 		mt := []int{1, 2, 3, 4, 8}[rng.Intn(5)]
-		o := gen.GraphOpts{MaxProcs: 7, Lens: lens, Buf: b, FanIn: true, Params: true, GoFunc: true, MultiOut: true, Portless: true, SubDirs: true,
+		o := gen.GraphOpts{MaxProcs: 7, Lens: lens, Buf: b, FanIn: true, Params: true, GoFunc: true, WriteAPI: true, MultiOut: true, Portless: true, SubDirs: true,
 			Recorders: true, ParamComb: true, Prepend: true, Cores: mt, MaxTasks: mt, SleepMax: 0}
 		if b == 128 {
 			o.MaxProcs = 3
